@@ -83,7 +83,7 @@ def decLine (bs : Bytes) : String :=
 
 def fuelOf (s : St) : Nat := s.full.length + 2
 
-def ptOf (s : St) (store : Store) : PTree := buildP store.get (fuelOf s) s.root
+def ptOf (s : St) (store : Store) : PTree := buildRoot store.get (fuelOf s) s.root
 
 def indexOf (s : St) (i : Nat) : Option Nat :=
   let n := s.order.length
